@@ -108,6 +108,16 @@ CHECKS.update({
     ),
 })
 
+CHECKS.update({
+    "C08": dict(
+        engine="E1 + pool history driver",
+        category="exploration",
+        text="Generated pool histories (pools of 1..64 buffers; single-shot/multishot pool reads and receives started, completed with kernel-selected buffers, dropped in flight; ReadBufs edited, released twice, dropped, dropped on another thread, re-read into; pool handles cloned) against an ownership model bid -> Kernel | InCompletion | Owned; ring entries must be well formed, never name an owned buffer, never repeat; ReadBuf bytes never change underneath; every buffer is offered again at the end; plus > 65 536 release cycles for the 16-bit tail wrap.",
+        design_ref="5/C08",
+        technique="stateful model-based property testing (ownership model of provided buffers) over a simulated kernel",
+    ),
+})
+
 NOT_YET = {
 }
 
